@@ -288,12 +288,19 @@ func (fs LocalFileSystem) Copy(ctx context.Context, src, dst string, options *Co
 			return err
 		}
 
+		// Map each visited entry to its own path below the destination
+		rel, err := filepath.Rel(srcPath, p)
+		if err != nil {
+			return err
+		}
+		dp := filepath.Join(dstPath, rel)
+
 		if fi.IsDir() {
-			if err := os.Mkdir(dstPath, srcPerm); err != nil {
+			if err := os.Mkdir(dp, srcPerm); err != nil {
 				return errFromOS(err)
 			}
 		} else {
-			if err := copyRegularFile(srcPath, dstPath, srcPerm); err != nil {
+			if err := copyRegularFile(p, dp, srcPerm); err != nil {
 				return err
 			}
 		}
